@@ -67,7 +67,14 @@ def strategy_case(draw):
         'prio': st.sampled_from([0, 0, 1, 1, 1, 2, 50, 100]),
         'running': st.booleans(),
     }), max_size=16))
-    return {'nodes': nodes, 'apps': apps, 'free': draw(vec(0, 40))}
+    # re-evaluations: an instance is assigned again (to the same or another
+    # allocation) the way Loader.load_app does it for an instance it knows
+    moves = draw(st.lists(st.tuples(st.integers(0, 15),
+                                    st.one_of(st.none(),
+                                              st.integers(0, nnodes - 1))),
+                          max_size=6)) if apps else []
+    return {'nodes': nodes, 'apps': apps, 'free': draw(vec(0, 40)),
+            'moves': [list(m) for m in moves]}
 
 
 CELL_PROFILE = {
@@ -285,7 +292,7 @@ def execute_master(case, stats):
             for alloc, items in per_alloc.items():
                 expect = sorted(items, key=lambda it: (
                     -it[2], 0 if it[3] else 1,
-                    cell.apps[it[1]].global_order))
+                    sim.arrival.get(it[1], 1 << 60)))
                 if [it[1] for it in expect] != [it[1] for it in items]:
                     raise Violation(
                         'c06.master.alloc-order',
@@ -333,14 +340,30 @@ def execute(case, stats):
         allocs.append(alloc)
         depth.append(1 if node['parent'] < 0 else depth[node['parent']] + 1)
     apps = []
+    cell = scheduler.Cell('tree')
+    final_alloc = []
     for idx, spec in enumerate(case['apps']):
         app = scheduler.Application(
             'pr.app#%010d' % idx, spec['prio'], list(spec['demand']),
             affinity='a')
         if spec['running']:
             app.server = 'srv'
-        allocs[spec['alloc']].add(app)
+        cell.add_app(allocs[spec['alloc']], app)
         apps.append(app)
+        final_alloc.append(spec['alloc'])
+    for aidx, target in case.get('moves', []):
+        if not apps:
+            break
+        aidx %= len(apps)
+        if target is not None:
+            final_alloc[aidx] = target
+        clock.advance(1)
+        cell.add_app(allocs[final_alloc[aidx]], apps[aidx])
+        stats.count('tree_reassignments')
+    # arrival order = the order in which the instances were first submitted
+    arrival = {app.name: idx for idx, app in enumerate(apps)}
+    case = dict(case, apps=[dict(spec, alloc=final_alloc[idx])
+                            for idx, spec in enumerate(case['apps'])])
 
     try:
         queue = list(root.utilization_queue(
@@ -370,7 +393,7 @@ def execute(case, stats):
                 if spec['alloc'] == aidx]
         expect = sorted(mine, key=lambda sa: (
             -sa[0]['prio'], 0 if sa[0]['running'] else 1,
-            sa[1].global_order))
+            arrival[sa[1].name]))
         got = sorted(mine, key=lambda sa: pos[sa[1].name])
         if [a.name for _s, a in expect] != [a.name for _s, a in got]:
             raise Violation(
